@@ -8,14 +8,19 @@ Inductive terminal := TEnd | TTooLong | TNoProgress | TPort (k : N).
 Record reader := { rest : list byte; sched : list nat; final : terminal; err_with_data : bool }.
 
 Definition read (r : reader) (room : nat) : list byte * option terminal * reader :=
-  match rest r with
-  | [] => ([], Some (final r), r)
+  match sched r with
+  | O :: sch' =>        (* an empty read (0, nil): possible at any time, also after the last byte *)
+      ([], None, {| rest := rest r; sched := sch'; final := final r; err_with_data := err_with_data r |})
   | _ =>
-    let k := match sched r with [] => room | k :: _ => k end in
-    let n := Nat.min k (Nat.min room (length (rest r))) in
-    let r' := {| rest := skipn n (rest r); sched := tl (sched r); final := final r; err_with_data := err_with_data r |} in
-    let e := if err_with_data r && (length (rest r) <=? n) then Some (final r) else None in
-    (firstn n (rest r), e, r')
+    match rest r with
+    | [] => ([], Some (final r), r)
+    | _ =>
+      let k := match sched r with [] => room | k :: _ => k end in
+      let n := Nat.min k (Nat.min room (length (rest r))) in
+      let r' := {| rest := skipn n (rest r); sched := tl (sched r); final := final r; err_with_data := err_with_data r |} in
+      let e := if err_with_data r && (length (rest r) <=? n) then Some (final r) else None in
+      (firstn n (rest r), e, r')
+    end
   end.
 
 Definition max_token : N := 65536.
